@@ -142,9 +142,15 @@ class BaseFunctionSpace(AbstractFunctionSpace, UFLObject):
             edata = element._ufl_signature_data_()
         return (name, ddata, edata, self.label())
 
+    def _repr_label(self):
+        """Label argument of the repr (only written when a label is set)."""
+        return f", label={self._label!r}" if self._label else ""
+
     def __repr__(self):
         """Representation."""
-        return f"BaseFunctionSpace({self._ufl_domain!r}, {self._ufl_element!r})"
+        return (
+            f"BaseFunctionSpace({self._ufl_domain!r}, {self._ufl_element!r}{self._repr_label()})"
+        )
 
     @property
     def value_shape(self) -> tuple[int, ...]:
@@ -177,7 +183,7 @@ class FunctionSpace(BaseFunctionSpace, UFLObject):
 
     def __repr__(self):
         """Representation."""
-        return f"FunctionSpace({self._ufl_domain!r}, {self._ufl_element!r})"
+        return f"FunctionSpace({self._ufl_domain!r}, {self._ufl_element!r}{self._repr_label()})"
 
     def __str__(self):
         """String."""
@@ -208,7 +214,7 @@ class DualSpace(BaseFunctionSpace, UFLObject):
 
     def __repr__(self):
         """Representation."""
-        return f"DualSpace({self._ufl_domain!r}, {self._ufl_element!r})"
+        return f"DualSpace({self._ufl_domain!r}, {self._ufl_element!r}{self._repr_label()})"
 
     def __str__(self):
         """String."""
